@@ -322,46 +322,47 @@ Definition center_loop : fprog :=
    FOutIdx (FCell 22)].
 
 (* compute_neighbors_call : _compute_neighbors in mdtraj/geometry/src/neighbors.cpp (per call)
-   cells: 0=<control>, 1=cutoff2, 2=periodic, 3=triclinic, 4=recip_box_size, 5=c, 6=box_size, 7=inv_box_size, 8=box_vec1, 9=box_vec2, 10=box_vec3, 11=result, 12=hit, 13=i, 14=pos1, 15=qit, 16=j, 17=pos2, 18=delta, 19=dist2 | cursors:  | per-frame arrays:  | globals: 0=cutoff, 1=box_matrix, 2=haystack_indices, 3=frame_xyz, 4=query_indices *)
+   cells: 0=<control>, 1=cutoff2, 2=periodic, 3=triclinic, 4=recip_box_size, 5=box_size, 6=inv_box_size, 7=box_vec1, 8=box_vec2, 9=box_vec3, 10=result, 11=hit, 12=i, 13=pos1, 14=qit, 15=j, 16=pos2, 17=delta, 18=dist2 | cursors:  | per-frame arrays:  | globals: 0=cutoff, 1=box_matrix, 2=haystack_indices, 3=frame_xyz, 4=query_indices *)
 Definition compute_neighbors_call : fprog :=
   [FSet 1 (FGlob 0);
    FSet 2 (FGlob 1);
-   FSet 3 (FConst 0);
+   FSet 3 (FAdd (FCell 2) (FGlob 1));
    FSet 4 (FConst 0);
    FSet 0 (FCell 2);
+   FSet 4 (FAdd (FGlob 1) (FCell 4));
+   FSet 4 (FAdd (FGlob 1) (FCell 4));
+   FSet 4 (FAdd (FGlob 1) (FCell 4));
    FSet 5 (FGlob 1);
-   FSet 3 (FCell 5);
-   FSet 4 (FAdd (FCell 5) (FCell 4));
-   FSet 4 (FAdd (FCell 5) (FCell 4));
-   FSet 4 (FAdd (FCell 5) (FCell 4));
-   FSet 6 (FCell 5);
-   FSet 7 (FCell 5);
-   FSet 8 (FCell 5);
-   FSet 9 (FCell 5);
-   FSet 10 (FCell 5);
-   FSet 11 (FConst 0);
-   FSet 12 (FGlob 2);
-   FSet 0 (FAdd (FCell 12) (FGlob 2));
-   FSet 12 (FCell 12);
-   FSet 13 (FCell 12);
-   FSet 14 (FAdd (FGlob 3) (FCell 13));
-   FSet 15 (FGlob 4);
-   FSet 0 (FAdd (FCell 15) (FGlob 4));
-   FSet 15 (FCell 15);
-   FSet 16 (FCell 15);
-   FSet 0 (FAdd (FCell 13) (FCell 16));
-   FSet 17 (FAdd (FGlob 3) (FCell 16));
-   FSet 18 (FAdd (FCell 14) (FCell 17));
+   FSet 6 (FCell 4);
+   FSet 7 (FGlob 1);
+   FSet 8 (FGlob 1);
+   FSet 9 (FGlob 1);
+   FSet 9 (FAdd (FCell 9) (FCell 8));
+   FSet 9 (FAdd (FCell 9) (FCell 7));
+   FSet 8 (FAdd (FCell 8) (FCell 7));
+   FSet 10 (FConst 0);
+   FSet 11 (FGlob 2);
+   FSet 0 (FAdd (FCell 11) (FGlob 2));
+   FSet 11 (FCell 11);
+   FSet 12 (FCell 11);
+   FSet 13 (FAdd (FGlob 3) (FCell 12));
+   FSet 14 (FGlob 4);
+   FSet 0 (FAdd (FCell 14) (FGlob 4));
+   FSet 14 (FCell 14);
+   FSet 15 (FCell 14);
+   FSet 0 (FAdd (FCell 12) (FCell 15));
+   FSet 16 (FAdd (FGlob 3) (FCell 15));
+   FSet 17 (FAdd (FCell 13) (FCell 16));
    FSet 0 (FCell 3);
-   FSet 18 (FAdd (FAdd (FCell 18) (FCell 10)) (FCell 4));
-   FSet 18 (FAdd (FAdd (FCell 18) (FCell 9)) (FCell 4));
-   FSet 18 (FAdd (FAdd (FCell 18) (FCell 8)) (FCell 4));
+   FSet 17 (FAdd (FAdd (FCell 17) (FCell 9)) (FCell 4));
+   FSet 17 (FAdd (FAdd (FCell 17) (FCell 8)) (FCell 4));
+   FSet 17 (FAdd (FAdd (FCell 17) (FCell 7)) (FCell 4));
    FSet 0 (FCell 2);
-   FSet 18 (FAdd (FAdd (FCell 18) (FCell 7)) (FCell 6));
-   FSet 19 (FCell 18);
-   FSet 0 (FAdd (FCell 19) (FCell 1));
-   FSet 11 (FAdd (FCell 11) (FCell 13));
-   FOutIdx (FCell 11)].
+   FSet 17 (FAdd (FAdd (FCell 17) (FCell 6)) (FCell 5));
+   FSet 18 (FCell 17);
+   FSet 0 (FAdd (FCell 18) (FCell 1));
+   FSet 10 (FAdd (FCell 10) (FCell 12));
+   FOutIdx (FCell 10)].
 
 (* drid_moments_call : drid_moments in mdtraj/geometry/src/dridkernels.cpp (per call)
    cells: 0=<control>, 1=onlinemoments, 2=x, 3=i, 4=y, 5=r, 6=d | cursors:  | per-frame arrays:  | globals: 0=coords, 1=index, 2=n_partners, 3=partners, 4=moments *)
@@ -443,6 +444,6 @@ Proof. reflexivity. Qed.
 (* mutable file-scope variables and static locals found in the kernel source files (sasa.cpp, dssp.cpp, geometry.cpp,
    neighbors.cpp, neighborlist.cpp, dridkernels.cpp, moments.cpp, the kernel headers, the rmsd sources): state that
    outlives a call *)
-Definition kernel_files_static_state : list string := ["neighbors.cpp:have_last_cell"%string; "neighbors.cpp:last_cell"%string].
+Definition kernel_files_static_state : list string := [].
 Lemma kernel_files_stateless : kernel_files_static_state = [].
 Proof. reflexivity. Qed.
